@@ -104,7 +104,10 @@ CaseList == <<
    <<"segrt", "seg", "cna", "gfp">>,   \* 77
    <<"write", "tab", "tab", "g1">>,   \* 78
    <<"rt", "tab", "tab", "g">>,   \* 79
-   <<"read", "tab", "tab", "g">>   \* 80
+   <<"read", "tab", "tab", "g">>,   \* 80
+   <<"read", "interval", "interval", "gs">>,   \* 81
+   <<"auto", "interval", "interval", "gs">>,   \* 82
+   <<"rt", "interval", "interval", "gs">>   \* 83
    >>
 Names  == NameSets[NameSet]      \* sequence of chromosome names (texts)
 Genes  == GeneSets[GeneSet]      \* sequence of gene labels (texts)
@@ -120,6 +123,7 @@ RowSet(shape) ==
     CASE shape = "cse" -> {<<n, p[1], p[2]>> : n \in NI, p \in Coords}                       \* chromosome start end
       [] shape = "g"   -> {<<n, p[1], p[2], g>> : n \in NI, p \in Coords, g \in GI}           \* + gene (every label)
       [] shape = "g1"  -> {<<n, p[1], p[2], 1>> : n \in NI, p \in Coords}                    \* + gene (first label only)
+      [] shape = "gs"  -> {<<n, p[1], p[2], 1, st>> : n \in NI, p \in Coords, st \in 1..3}    \* + gene, strand + - .
       [] shape = "gf"  -> {<<n, p[1], p[2], 1, f>> : n \in NI, p \in Coords, f \in FI}        \* + gene, log2
       [] shape = "gfp" -> {<<n, p[1], p[2], 1, f>> : n \in NI, p \in Coords, f \in FI}        \* + gene, log2, probes
       [] shape = "gf2" -> {<<n, p[1], p[2], 1, 1, m>> : n \in NI, p \in Coords, m \in 1..2}   \* two samples
@@ -134,6 +138,8 @@ MkSrcs(shape, rows) ==
     LET mk(cols, f(_), rs) == Tbl(cols, [k \in 1..Len(rs) |-> f(rs[k])]) IN
     CASE shape = "cse" -> << <<t_S1, mk(CSE, Base, rows)>> >>
       [] shape \in {"g", "g1"} -> << <<t_S1, mk(CSE \o <<t_gene>>, LAMBDA r : Base(r) \o <<SCell(Genes[r[4]])>>, rows)>> >>
+      [] shape = "gs"  -> << <<t_S1, mk(CSE \o <<t_gene, t_strand>>,
+                                       LAMBDA r : Base(r) \o <<SCell(Genes[1]), SCell(<<t_plus, t_dash, t_dot>>[r[5]])>>, rows)>> >>
       [] shape = "gf"  -> << <<t_S1, mk(CSE \o <<t_gene, t_log2>>,
                                        LAMBDA r : Base(r) \o <<SCell(Genes[r[4]]), FloatCell(r[5])>>, rows)>> >>
       [] shape = "gfp" -> << <<t_S1, mk(CSE \o <<t_gene, t_log2, t_probes>>,
